@@ -1,0 +1,165 @@
+//! Verification-only hooks, compiled only with the `verif_hooks` feature (off by default).
+//!
+//! * `knobs`: thread-local switches consulted by the real prover so that an external harness can
+//!   drive it as an adversary (degenerate permutation accumulator, perturbed quotient, lenient
+//!   quotient truncation, chosen proof-of-work witness, lenient lookup multiplicities). Every
+//!   knob defaults to "off", which is the unmodified behaviour.
+//! * read-only wrappers around crate-private functions the harness compares against.
+
+use crate::field::extension::Extendable;
+use crate::fri::proof::{CompressedFriProof, FriChallenges, FriProof};
+use crate::fri::structure::FriInstanceInfo;
+use crate::fri::FriParams;
+use crate::hash::hash_types::RichField;
+use crate::hash::merkle_proofs::MerkleProof;
+use crate::plonk::circuit_data::CommonCircuitData;
+use crate::plonk::config::{GenericConfig, Hasher};
+use crate::plonk::proof::{
+    CompressedProofWithPublicInputs, FriInferredElements, ProofChallenges,
+};
+use crate::plonk::vars::EvaluationVars;
+
+pub mod knobs {
+    use core::cell::Cell;
+
+    #[derive(Clone, Copy, Debug, Default, PartialEq, Eq)]
+    pub struct Knobs {
+        /// Initial value of the permutation accumulator Z (honest: 1).
+        pub z_init: Option<u64>,
+        /// Add `delta` to coefficient 0 of the quotient polynomial of challenge `index`.
+        pub quotient_perturb: Option<(usize, u64)>,
+        /// Truncate the quotient polynomial instead of failing when it is too long.
+        pub lenient_quotient: bool,
+        /// Use this proof-of-work witness instead of searching for one (no check).
+        pub pow_witness: Option<u64>,
+        /// A looked-up input that is not in its table contributes no multiplicity instead of
+        /// panicking.
+        pub lenient_lookups: bool,
+    }
+
+    std::thread_local! {
+        static KNOBS: Cell<Knobs> = const { Cell::new(Knobs {
+            z_init: None,
+            quotient_perturb: None,
+            lenient_quotient: false,
+            pow_witness: None,
+            lenient_lookups: false,
+        }) };
+    }
+
+    pub fn set(k: Knobs) {
+        KNOBS.with(|c| c.set(k));
+    }
+
+    pub fn get() -> Knobs {
+        KNOBS.with(|c| c.get())
+    }
+
+    pub fn reset() {
+        set(Knobs::default());
+    }
+}
+
+/// `plonk::vanishing_poly::eval_vanishing_poly`.
+pub fn eval_vanishing_poly<F: RichField + Extendable<D>, const D: usize>(
+    common_data: &CommonCircuitData<F, D>,
+    x: F::Extension,
+    vars: EvaluationVars<F, D>,
+    local_zs: &[F::Extension],
+    next_zs: &[F::Extension],
+    local_lookup_zs: &[F::Extension],
+    next_lookup_zs: &[F::Extension],
+    partial_products: &[F::Extension],
+    s_sigmas: &[F::Extension],
+    betas: &[F],
+    gammas: &[F],
+    alphas: &[F],
+    deltas: &[F],
+) -> alloc_vec::Vec<F::Extension> {
+    crate::plonk::vanishing_poly::eval_vanishing_poly(
+        common_data,
+        x,
+        vars,
+        local_zs,
+        next_zs,
+        local_lookup_zs,
+        next_lookup_zs,
+        partial_products,
+        s_sigmas,
+        betas,
+        gammas,
+        alphas,
+        deltas,
+    )
+}
+
+mod alloc_vec {
+    pub use std::vec::Vec;
+}
+
+/// `CommonCircuitData::get_fri_instance`.
+pub fn get_fri_instance<F: RichField + Extendable<D>, const D: usize>(
+    common_data: &CommonCircuitData<F, D>,
+    zeta: F::Extension,
+) -> FriInstanceInfo<F, D> {
+    common_data.get_fri_instance(zeta)
+}
+
+/// `hash::path_compression::compress_merkle_proofs`.
+pub fn compress_merkle_proofs<F: RichField, H: Hasher<F>>(
+    cap_height: usize,
+    indices: &[usize],
+    proofs: &[MerkleProof<F, H>],
+) -> std::vec::Vec<MerkleProof<F, H>> {
+    crate::hash::path_compression::compress_merkle_proofs(cap_height, indices, proofs)
+}
+
+/// `hash::path_compression::decompress_merkle_proofs`.
+pub fn decompress_merkle_proofs<F: RichField, H: Hasher<F>>(
+    leaves_data: &[std::vec::Vec<F>],
+    leaves_indices: &[usize],
+    compressed_proofs: &[MerkleProof<F, H>],
+    height: usize,
+    cap_height: usize,
+) -> std::vec::Vec<MerkleProof<F, H>> {
+    crate::hash::path_compression::decompress_merkle_proofs(
+        leaves_data,
+        leaves_indices,
+        compressed_proofs,
+        height,
+        cap_height,
+    )
+}
+
+/// `CompressedFriProof::decompress` with explicit query indices and inferred elements. Only the
+/// FRI query indices of `ProofChallenges` are read by the decompression.
+pub fn decompress_fri_proof<F: RichField + Extendable<D>, H: Hasher<F>, const D: usize>(
+    proof: CompressedFriProof<F, H, D>,
+    fri_challenges: FriChallenges<F, D>,
+    inferred_elements: std::vec::Vec<F::Extension>,
+    params: &FriParams,
+) -> FriProof<F, H, D> {
+    use crate::field::types::Field;
+    let challenges = ProofChallenges {
+        plonk_betas: std::vec::Vec::new(),
+        plonk_gammas: std::vec::Vec::new(),
+        plonk_alphas: std::vec::Vec::new(),
+        plonk_deltas: std::vec::Vec::new(),
+        plonk_zeta: F::Extension::ZERO,
+        fri_challenges,
+    };
+    proof.decompress(&challenges, FriInferredElements(inferred_elements), params)
+}
+
+/// `CompressedProofWithPublicInputs::get_inferred_elements`.
+pub fn inferred_elements<
+    F: RichField + Extendable<D>,
+    C: GenericConfig<D, F = F>,
+    const D: usize,
+>(
+    proof: &CompressedProofWithPublicInputs<F, C, D>,
+    challenges: &ProofChallenges<F, D>,
+    common_data: &CommonCircuitData<F, D>,
+) -> std::vec::Vec<F::Extension> {
+    proof.get_inferred_elements(challenges, common_data).0
+}
